@@ -24,7 +24,7 @@ class LLExtra:
 
 
 @st.composite
-def full_config(draw, modes=("vector", "scalar", "blobs", "blobs2", "blobs_auto", "blobs_str", "blobs_rec", "blobs_arr"), pools=(None, None, "permuting", "executor", 1), allow_zero=True,
+def full_config(draw, modes=("vector", "scalar", "blobs", "blobs2", "blobs_auto", "blobs_str", "blobs_rec", "blobs_arr", "blobs_f4", "blobs_int"), pools=(None, None, "permuting", "executor", 1), allow_zero=True,
                 max_d=3, allow_narrow=True, allow_extra=True, metrics=("ess", "ess", "vv0.3", "vv2", "vv0.1")):
     d = draw(st.integers(1, max_d))
     mode = draw(st.sampled_from(list(modes)))
